@@ -11,6 +11,7 @@ import datetime
 import itertools
 import random
 import shutil
+import time
 import warnings
 
 import numpy as np
@@ -722,8 +723,15 @@ def check_partition(t, a, b, p, probs, what):
 
 
 def norm_mval(v):
+    """canonical form up to Python's ==: numbers as EXACT rationals (1 == 1.0 == True, but 2**53 != 2**53 + 1,
+    which a float would merge)"""
     if isinstance(v, (bool, int, float, np.integer, np.floating)):
-        return ("num", float(v))
+        import fractions
+        import math
+
+        if isinstance(v, (float, np.floating)) and not math.isfinite(v):
+            return ("float", repr(float(v)))
+        return ("num", fractions.Fraction(int(v) if isinstance(v, (bool, int, np.integer)) else float(v)))
     return ct.canon_mval(v)
 
 
@@ -891,6 +899,175 @@ def oracle(t, op, res):
             ix = ["triple", ix[1], ix[2], ["none"]]
         probs += oracle_getitem(first_slice(t), ix, res)
     return probs
+
+
+# =============================================================================== large inputs (family Q)
+LARGE_QUICK = [
+    ("boundary-at-256", dict(slice_sizes=[256, 1])),
+    ("boundaries-at-256-multiples", dict(slice_sizes=[256, 256, 300], alias_every=5)),
+    ("3x1024", dict(slice_sizes=[1024, 1024, 1024])),
+    ("century-monthly", dict(slice_sizes=[2400], n_evals=2, start=(1935, 1))),
+    ("wide-rows", dict(slice_sizes=[210], n_evals=70)),
+    ("many-slices", dict(slice_sizes=[1] * 2200, limit=2 ** 53)),
+]
+LARGE_THOROUGH = [
+    ("5x1024+1", dict(slice_sizes=[1024, 512, 256, 1, 2048, 1280], alias_every=3)),
+    ("two-centuries-monthly", dict(slice_sizes=[4800], n_evals=2, start=(1850, 1))),
+    ("many-slices-4300", dict(slice_sizes=[1] * 4300, limit=2 ** 53)),
+]
+
+
+def big_array_triangle(n_small=5000, n_big=100000):
+    b = jc.bermuda()
+    base = np.arange(n_big, dtype=np.float64)
+    m = b.Metadata(country="US", per_occurrence_limit=2 ** 53 + 1)
+    cells = []
+    for i in range(6):
+        ps = D(2020, 1 + i % 2 * 3, 1)
+        vals = {"small": (np.arange(n_small, dtype=np.int64) + i)[::-1], "big": base[::-1] + i if i % 2 else base + i,
+                "strided": base[::20] * 1.0, "id": 2 ** 53 + 1 + i, "paid": float(i)}
+        cells.append(b.CumulativeCell(period_start=ps, period_end=jc.add_months_end(ps, 2),
+                                      evaluation_date=jc.add_months_end(ps, 2 + 3 * (i // 2)), values=vals, metadata=m))
+    return jc.mk_triangle(cells)
+
+
+def large_check(t, name):
+    """[(operation description, problems)] for one big triangle, dictionary-based oracles"""
+    out = []
+    cells = t.cells
+    n = len(cells)
+    mk = {}
+    for c in cells:
+        if id(c.metadata) not in mk:
+            mk[id(c.metadata)] = meta_key(c.metadata)
+    key = lambda c: mk[id(c.metadata)]      # noqa: E731
+
+    def run(desc, f, want_f):
+        r = _quiet(f)
+        if isinstance(r, BaseException):
+            out.append((desc, [f"{desc} raised {type(r).__name__}: {r}"]))
+            return
+        probs = want_f(r)
+        out.append((desc, probs))
+
+    groups = {}
+    for c in cells:
+        groups.setdefault(key(c), []).append(c)
+
+    def chk_slices(r):
+        probs = []
+        got = {}
+        for k_, part in r.items():
+            kk = meta_key(k_)
+            if kk in got:
+                probs.append("slices: two parts with the same key")
+            got[kk] = part
+        if set(got) != set(groups):
+            probs.append(f"slices: {len(got)} parts, the triangle has {len(groups)} distinct metadata")
+        else:
+            for kk, part in got.items():
+                if not jc.same_cells_fast(part.cells, groups[kk]):
+                    probs.append(f"slices: a part holds {len(part.cells)} cells, its slice has {len(groups[kk])}")
+                    break
+        return probs
+
+    run("slices", lambda: t.slices, chk_slices)
+    rows = {}
+    for c in cells:
+        rows.setdefault((key(c), c.period), []).append(c)
+    want_ids = set()
+    for row in rows.values():
+        mx = max(c.evaluation_date for c in row)
+        want_ids.add(id([c for c in row if c.evaluation_date == mx][-1]))
+    want_re = [c for c in cells if id(c) in want_ids]
+    run("right_edge", lambda: t.right_edge,
+        lambda r: [] if jc.same_cells_fast(r.cells, want_re) else
+        [f"right_edge returned {len(r.cells)} cells, the latest cells of the {len(rows)} slice-periods are {len(want_re)}"])
+    for which, c0 in (("first", cells[0]), ("last", cells[-1])):
+        m0, k0 = c0.metadata, key(c0)
+        want = [c for c in cells if key(c) == k0]
+        run(f"t[:, :, metadata of the {which} cell]", lambda m0=m0: t[:, :, m0],
+            lambda r, want=want: [] if jc.same_cells_fast(r.cells, want) else
+            [f"t[:, :, metadata] returned {len(r.cells)} cells, the slice has {len(want)}"])
+    sp = {}
+    for c in cells:
+        sp.setdefault(norm_mval(c.metadata.details.get("grp")), []).append(c)
+
+    def chk_split(r):
+        got = {norm_mval(k_[0]): part for k_, part in r.items()}
+        if set(got) != set(sp):
+            return [f"split(['grp']): {len(got)} parts, {len(sp)} distinct values"]
+        return [] if all(jc.same_cells_fast(got[k_].cells, sp[k_]) for k_ in sp) else ["split(['grp']): a part is not the cells of its key"]
+
+    run("split(['grp'])", lambda: t.split(["grp"]), chk_split)
+    # month-unit clips (all these cells are month aligned): inclusive whole-month bounds
+    lags = sorted({month_lag(c) for c in cells})
+    for kbound in sorted({lags[0], lags[len(lags) // 2], lags[-1], 3}):
+        for kw in ({"min_dev": kbound}, {"max_dev": kbound}, {"min_dev": float(kbound), "max_dev": kbound + 0.5, "dev_lag_unit": "months"}):
+            want = want_clip(t, kw)
+            run(f"clip({kw})", lambda kw=kw: t.clip(**kw),
+                lambda r, want=want, kw=kw: [] if jc.same_cells_fast(r.cells, want) else
+                [f"clip({kw}) returned {len(r.cells)} cells, the inclusive bounds select {len(want)} (of {n})"])
+    evs = sorted({c.evaluation_date for c in cells})
+    dmid = evs[len(evs) // 2]
+    run("clip(max_eval) / clip(min_eval) partition", lambda: (t.clip(max_eval=dmid), t.clip(min_eval=dmid + ONE)),
+        lambda r: [] if jc.same_cells_fast(r[0].cells, [c for c in cells if c.evaluation_date <= dmid])
+        and jc.same_cells_fast(r[1].cells, [c for c in cells if c.evaluation_date > dmid]) else
+        [f"complementary evaluation clips at {dmid} do not partition the {n} cells ({len(r[0].cells)} + {len(r[1].cells)})"])
+    pmid = cells[n // 2].period_start
+    run("t[period_start:, :, :]", lambda: t[pmid:, :, :],
+        lambda r: [] if jc.same_cells_fast(r.cells, [c for c in cells if c.period_start >= pmid]) else
+        [f"t[{pmid}:, :, :] returned {len(r.cells)} cells"])
+    f0 = sorted(cells[0].values)[0]
+
+    def chk_select(r):
+        if len(r.cells) != n:
+            return ["select changed the number of cells"]
+        for c, o in zip(cells, r.cells):
+            if list(o.values) != [k_ for k_ in c.values if k_ == f0] or any(o.values[k_] is not c.values[k_] and not np.array_equal(o.values[k_], c.values[k_]) for k_ in o.values) \
+                    or (o.period, o.evaluation_date, key(c)) != (c.period, c.evaluation_date, meta_key(o.metadata)):
+                return [f"select([{f0!r}]) changed a cell"]
+        return []
+
+    run(f"select([{f0!r}])", lambda: t.select([f0]), chk_select)
+    run(f"extract({f0!r})", lambda: t.extract(f0),
+        lambda r: [] if len(r) == n and all(x is c.values.get(f0) or np.array_equal(x, c.values.get(f0)) for x, c in zip(r, cells))
+        else [f"extract({f0!r}) is not one entry per cell in order"])
+    return out
+
+
+def large_stream(ctx, fails, only=None):
+    """a handful of big triangles per run (family Q); process-wide state is probed by re-checking the first
+    cases after the large work.  Python oracles only (no Coq literals)."""
+    specs = LARGE_QUICK + ([] if ctx.quick else LARGE_THOROUGH)
+    n = 0
+    built = {}
+
+    def one(name, t, phase):
+        nonlocal n
+        for desc, probs in large_check(t, name):
+            n += 1
+            ctx.hist(f"large:{name}")
+            if probs:
+                fails.append((jc.mk_triangle([]), {"kind": "large", "case": name, "phase": phase, "operation": desc,
+                                                   "cells": len(t)}, probs))
+    for name, params in specs:
+        with warnings.catch_warnings():
+            warnings.simplefilter("ignore")
+            t = jc.big_triangle(**params)
+        built[name] = t
+        one(name, t, "first pass")
+    with warnings.catch_warnings():
+        warnings.simplefilter("ignore")
+        built["big-arrays"] = big_array_triangle(5000, 100000 if ctx.quick else 400000)
+    one("big-arrays", built["big-arrays"], "first pass")
+    # after > 1024 months and > 2100 distinct Metadata went through this process: the earliest cases again
+    for name in ("boundary-at-256", "century-monthly", "wide-rows"):
+        one(name, built[name], "re-check after the large work")
+        with warnings.catch_warnings():
+            warnings.simplefilter("ignore")
+            one(name, jc.big_triangle(**dict(specs)[name]), "rebuilt after the large work")
+    return n
 
 
 # =============================================================================== state, spellings, refusals
@@ -1127,7 +1304,9 @@ def prepare(ctx):
 def run(ctx):
     ctx.rule = (
         "triangles from harness/gen.py (7 layouts x cumulative/incremental x 1-3 slices x int/float/array values, "
-        "plus directed special triangles on every run (falsy field/detail values, None vs '' vs 0 metadata, empty, one "
+        "plus a LARGE stream judged by python oracles only (257..3072 cells with slice boundaries at multiples of 256, "
+        "2400 monthly periods over a century, rows of 70 evaluations, 2200 slices, 5000- and 100000-sample arrays, "
+        "integers beyond 2**53, the first cases re-checked after the large work), directed special triangles on every run (falsy field/detail values, None vs '' vs 0 metadata, empty, one "
         "cell, cells built from datetimes, NumPy corner types), a state stream (same call twice / after the caller "
         "emptied the result), spellings and refusals, monthly triangles around the Februaries of 1900/2000/2096/2100/2200, slices differing only in where a key "
         "lives (details vs loss_details / attribute vs detail key), duplicate coordinates, equal-but-differently-written "
@@ -1216,6 +1395,10 @@ def correspond(ctx):
         cases.triangles[k] = t
         if k % 9 == 4 or k >= n_tri:
             n_ops += state_and_spelling_stream(ctx, t, rng, fails)
+    t_large = time.time()
+    n_ops += large_stream(ctx, fails)
+    ctx.notes.append(f"large stream (family Q): python-side oracles only, no Coq literals -- the theorems are "
+                     f"size-independent, the correspondence samples small triangles; {time.time() - t_large:.1f} s")
     probs, err = jc.cross_process_probe(ctx, "cum")      # family O (judged by the C10 and C11 oracles)
     ctx.hist("cross-process probe (pickled under another PYTHONHASHSEED)")
     ctx.obligation("cross-process probe runs", err is None, err or "")
@@ -1258,6 +1441,15 @@ def correspond(ctx):
 def replay(ctx, data):
     t = jc.tri_from_json(data["triangle"])
     op = data["op"]
+    if op.get("kind") == "large":
+        fails = []
+        large_stream(ctx, fails)
+        mine = [f for f in fails if f[1]["case"] == op["case"]] or fails
+        for _, o, probs in mine[:6]:
+            print(f"PROBLEM: [{o['case']}, {o['cells']} cells, {o['phase']}] {probs[0]}")
+        if not fails:
+            print("the property holds on the large stream")
+        return 1 if fails else 0
     if op.get("kind") == "cross_process":
         probs, err = jc.cross_process_probe(ctx, "cum")
         probs = [x for x in probs if x.startswith(("mixed triangle", "the unpickled"))] + ([err] if err else [])
